@@ -195,6 +195,29 @@ pub fn gen_pair(rng: &mut Rng, tier: Tier) -> Pair {
                 o => o,
             };
         }
+        // now and then one argument is a dart that has been removed: a call that fails must not
+        // bring it back (flags are part of the state the statement lists)
+        let (mut init, mut op) = (init, op);
+        if irng.chance(0.15) {
+            let free: Vec<u32> = (1..init.n() as u32).filter(|&d| init.is_free(d)).collect();
+            if let Some(&d) = free.first() {
+                init.unused[d as usize] = true;
+                init.vtx[d as usize] = None;
+                for a in init.attrs.iter_mut() {
+                    if let Some(x) = a.get_mut(d as usize) {
+                        *x = None;
+                    }
+                }
+                let first = irng.chance(0.5);
+                op = match op {
+                    Op::Link { i, l, r } => if first { Op::Link { i, l: d, r } } else { Op::Link { i, l, r: d } },
+                    Op::Sew { i, l, r } => if first { Op::Sew { i, l: d, r } } else { Op::Sew { i, l, r: d } },
+                    Op::Unlink { i, .. } => Op::Unlink { i, l: d },
+                    Op::Unsew { i, .. } => Op::Unsew { i, l: d },
+                    o => o,
+                };
+            }
+        }
         (init, op, prefix)
     };
     let order = rand_order(&mut irng, init.kinds);
